@@ -1,28 +1,2 @@
-(* GENERATED by harness/translate.py — DO NOT EDIT.
-   Source: comb_spec_searcher/rule_db/forest.py  (TableMethod._correct_gap), re-read from the repository on every ./check run.
-   A source edit that changes the arithmetic changes this definition, and the
-   hand-written theories that import it are re-checked against it.
-
-   def _correct_gap(self) -> None:
-           """
-           Correct the gap and if needed queue rules for the classes that were previously
-           on the right hand  side of the gap.
-
-           This should be toggled every time the gap changes whether the size changes or
-           the some value changes of the function caused the gap to change.
-           """
-           k = self._function.preimage_gap(self._gap_size)
-           new_gap = (k, k + self._gap_size - 1)
-           if new_gap[1] > self._current_gap[1]:
-               self._processing_queue.extend(self._rule_holding_extra_terms)
-               self._rule_holding_extra_terms.clear()
-           self._current_gap = new_gap
-*)
-From Coq Require Import ZArith List Bool.
-From CSS Require Import Gen.Prelude.
-Import ListNotations.
-Open Scope Z_scope.
-
-(* located expression: `new_gap[1] > self._current_gap[1]` *)
-Definition correct_gap_release (new_gap : list Z) (gap_end : Z) : bool :=
-  (gap_end <? (py_get 0 new_gap 1)).
+(* GENERATED: translation of TableMethod._correct_gap FAILED (TableMethod._correct_gap: expected 1 statements matching ('if_test', 'self._processing_queue.extend(self._rule_holding_extra_terms)'), found 0); this file deliberately does not compile. *)
+Translation_failed_closed.
